@@ -86,6 +86,29 @@ def lookup_attribute_facts(ctx, rid):
                         found=f"{sorted(missing)} not derived from {base.name}: their names and codes are no longer found", key_extra="filter")
                 continue
             raise AnalysisError(f"SuitKeyValue._get_method_and_name: additional selection condition not understood: {c!r}"[:200])
+    # any test of a key against the key base class, anywhere in the generic module, must hold for every key class of every table:
+    # a key class outside the hierarchy would silently take the other branch (dropped when encoding, mis-rendered when parsing)
+    S = ctx.schema
+    key_classes = {}
+    for mi in S.meta.values():
+        for k, v in mi.map or []:
+            kc = getattr(k, "cls", None)
+            if kc is not None and hasattr(k, "name"):
+                key_classes[kc.fq] = kc
+    common_mod = repo.mod(COMMON)
+    for f_ in common_mod.functions.values():
+        for n_ in ast.walk(f_.node):
+            if isinstance(n_, ast.Call) and isinstance(n_.func, ast.Name) and n_.func.id in ("issubclass", "isinstance") and len(n_.args) == 2:
+                r_ = repo.resolve_expr(common_mod, n_.args[1])
+                if not (r_ and r_[0] == "class" and r_[1].module.name.endswith(".keys")):
+                    continue
+                base = r_[1]
+                if f_.qualname.endswith("_get_method_and_name"):
+                    continue  # handled above with the selection itself
+                missing = sorted(kc.name for kc in key_classes.values() if base not in repo.mro(kc))
+                R.check(rid, not missing, f"{ctx.fq(f_)}: every key class passes {n_.func.id}(k, {base.name})", node=n_, function=ctx.fq(f_), mod=common_mod,
+                        expected="all key classes of all tables are treated alike by the generic code",
+                        found=f"{missing} not derived from {base.name}: these entries take the other branch", key_extra=f_.qualname + "hier")
     default = None
     a = fi.node.args
     names = [x.arg for x in a.args]
